@@ -94,6 +94,10 @@ func (a *setvarFn) Init(_ plugintypes.RuleMetadata, data string) error {
 		a.key = macro
 	}
 
+	if !valOk && !a.isRemove {
+		// `setvar:TX.flag` creates the variable and sets its value to 1
+		val, valOk = "1", true
+	}
 	if valOk {
 		macro, err := macro.NewMacro(val)
 		if err != nil {
@@ -106,7 +110,11 @@ func (a *setvarFn) Init(_ plugintypes.RuleMetadata, data string) error {
 
 func (a *setvarFn) Evaluate(r plugintypes.RuleMetadata, tx plugintypes.TransactionState) {
 	key := a.key.Expand(tx)
-	value := a.value.Expand(tx)
+	value := ""
+	if a.value != nil {
+		// no value is parsed for the removal form `setvar:!TX.key`
+		value = a.value.Expand(tx)
+	}
 	tx.DebugLogger().Debug().
 		Str("var_key", key).
 		Str("var_value", value).
